@@ -5,7 +5,7 @@ import TD.C01.Regex
 
 namespace TD.C01
 
-def clsFill : Cls := ⟨[(48, 48), (32, 32)], false⟩      -- [0 ]
+def clsFill : Cls := ⟨[(32, 32), (48, 48)], false⟩      -- [0 ]  (ranges in the translator's canonical order)
 def clsNZ : Cls := ⟨[(49, 57)], false⟩                  -- [1-9]
 def clsD : Cls := ⟨[(48, 57)], false⟩                   -- [0-9] and \d
 def clsAny : Cls := ⟨[(10, 10)], true⟩                  -- .
